@@ -293,4 +293,123 @@ theorem decimal_consts :
 theorem dom_is_min_max (d : Dec) :
     (Dec.MIN.coeff ≤ d.coeff ∧ d.coeff ≤ Dec.MAX.coeff ∧ d.nfrac ≤ Dec.DELTA.nfrac) ↔ Dom d := Kernels.dom_is_min_max d
 
+/-! ### algebraic laws
+Model-level corollaries about `round` itself. -/
+
+private theorem ok_of_val {o : Outcome Dec} {c : Int} {q : Nat} (h : Spec.allowedOp (.val c q) (outPair o) = true) :
+    o = .ok ⟨c, q⟩ := by
+  cases o with
+  | panic k => simp [Spec.allowedOp] at h
+  | ok d =>
+    obtain ⟨c', q'⟩ := d
+    simp [Spec.allowedOp] at h
+    rw [h.1, h.2]
+
+private theorem of_valFit {c c' : Int} {q q' : Nat} (h : Spec.allowedOp (Spec.valFit c q) (.ok (c', q')) = true) :
+    c' = c ∧ q' = q ∧ fitsI128 c = true := by
+  rw [valFit_eq] at h
+  by_cases hm : c = I128_MIN
+  · simp [hm, Spec.allowedOp] at h
+    refine ⟨by rw [h.1, hm], h.2, ?_⟩
+    rw [hm]; decide
+  · by_cases hf : fitsI128 c = true
+    · simp [hm, hf, Spec.allowedOp] at h
+      exact ⟨h.1, h.2, hf⟩
+    · simp [hm, hf, Spec.allowedOp] at h
+
+/-- an exact multiple of the divisor is its own rounding, in every mode -/
+private theorem specRound_exact (tm : Mode) (k t : Int) (ht : 0 < t) : Spec.specRound tm (k * t) t = k := by
+  unfold Spec.specRound
+  simp [Int.mul_emod_left, Int.mul_ediv_cancel k (Int.ne_of_gt ht)]
+
+/-- a non-zero multiple of ten is not `i128::MIN` -/
+private theorem scaled_ne_min (k : Int) (m : Nat) (hm : 0 < m) : k * (10 : Int) ^ m ≠ I128_MIN := by
+  obtain ⟨j, rfl⟩ : ∃ j, m = j + 1 := ⟨m - 1, by omega⟩
+  have e : k * (10 : Int) ^ (j + 1) = 10 * (k * (10 : Int) ^ j) := by
+    rw [Int.pow_succ, Int.mul_comm ((10 : Int) ^ j) 10, Int.mul_left_comm]
+  rw [e]
+  generalize k * (10 : Int) ^ j = z
+  unfold I128_MIN; omega
+
+/-- rounding is idempotent: a result of `round(n)` is returned unchanged by `round(n)` (every mode, profile, `n : i8`) -/
+theorem round_idempotent (prof : Profile) (tm : Mode) (x r : Dec) (n : Int) (hx : Dom x) (hn : -128 ≤ n ∧ n ≤ 127)
+    (h : round prof tm x n = .ok r) : round prof tm r n = .ok r := by
+  have hs := round_spec prof tm x n hx hn
+  rw [h] at hs
+  simp only [outPair_ok] at hs
+  unfold Spec.round at hs
+  by_cases h1 : n ≥ (x.nfrac : Int)
+  · -- nothing to round: `r = x`
+    simp only [h1, if_true] at hs
+    have : r = x := by
+      obtain ⟨c, q⟩ := r
+      obtain ⟨a, p⟩ := x
+      simp [Spec.allowedOp] at hs
+      rw [hs.1, hs.2]
+    rw [this]; rw [this] at h; exact h
+  · simp only [h1, if_false] at hs
+    by_cases h2 : n ≥ 0
+    · -- `r` has `n` fractional digits: the first test of `round` returns it
+      simp only [h2, if_true] at hs
+      obtain ⟨c, q⟩ := r
+      obtain ⟨-, e2, -⟩ := of_valFit hs
+      subst e2
+      have hp := hx.2.2
+      unfold round roundCore
+      simp only []
+      have e : ((n.toNat : Nat) : Int) = n := by omega
+      simp only [e]
+      rw [i8_cast_id (x := n) (by omega) (by omega)]
+      simp
+    · simp only [h2, if_false] at hs
+      have hm : 0 < (-n).toNat := by omega
+      have e0 : (((0 : Nat) : Int) - n).toNat = (-n).toNat := by simp
+      have h10 : ¬ n ≥ ((0 : Nat) : Int) := by omega
+      split at hs
+      · -- rounded to zero
+        have hr : r = ⟨0, 0⟩ := by
+          obtain ⟨c, q⟩ := r
+          simp [Spec.allowedOp] at hs
+          rw [hs.1, hs.2]
+        subst hr
+        have hd0 : Dom ⟨0, 0⟩ := by decide
+        have hs2 := round_spec prof tm ⟨0, 0⟩ n hd0 hn
+        unfold Spec.round at hs2
+        simp only [h10, h2, if_false, e0] at hs2
+        have := specRound_exact tm 0 ((10 : Int) ^ (-n).toNat) (pow10_pos _)
+        rw [Int.zero_mul] at this
+        simp only [this, if_true] at hs2
+        exact ok_of_val hs2
+      · rename_i hk0
+        obtain ⟨c, q⟩ := r
+        obtain ⟨e1, e2, hf⟩ := of_valFit hs
+        subst e1 e2
+        generalize Spec.specRound tm x.coeff ((10 : Int) ^ ((x.nfrac : Int) - n).toNat) = k at hk0 hf ⊢
+        have hne := scaled_ne_min k (-n).toNat hm
+        have hd : Dom ⟨k * (10 : Int) ^ (-n).toNat, 0⟩ := by
+          rw [fitsI128_iff] at hf
+          refine ⟨?_, hf.2, by simp⟩
+          simp only; omega
+        have hs2 := round_spec prof tm _ n hd hn
+        unfold Spec.round at hs2
+        simp only [h10, if_false, e0, h2] at hs2
+        rw [specRound_exact tm k _ (pow10_pos _)] at hs2
+        simp only [hk0, if_false] at hs2
+        rw [valFit_eq] at hs2
+        simp only [hne, hf, if_false, if_true] at hs2
+        exact ok_of_val hs2
+
+/-- the same as an equality of outcomes: rounding twice is rounding once (both sides panic together) -/
+theorem round_round (prof : Profile) (tm : Mode) (x : Dec) (n : Int) (hx : Dom x) (hn : -128 ≤ n ∧ n ≤ 127) :
+    (round prof tm x n >>= fun r => round prof tm r n) = round prof tm x n := by
+  cases h : round prof tm x n with
+  | panic k => rfl
+  | ok r => exact round_idempotent prof tm x r n hx hn h
+
+example : round Profile.dev .heven ⟨-12345, 3⟩ 1 = .ok ⟨-123, 1⟩ ∧ round Profile.dev .heven ⟨-123, 1⟩ 1 = .ok ⟨-123, 1⟩ ∧
+    round Profile.release .up ⟨12345, 1⟩ (-2) = .ok ⟨1300, 0⟩ ∧ round Profile.release .up ⟨1300, 0⟩ (-2) = .ok ⟨1300, 0⟩ ∧
+    round Profile.dev .ceil ⟨1, 5⟩ (-36) = .ok ⟨(10 : Int) ^ 36, 0⟩ ∧
+    round Profile.dev .ceil ⟨(10 : Int) ^ 36, 0⟩ (-36) = .ok ⟨(10 : Int) ^ 36, 0⟩ ∧
+    round Profile.dev .floor ⟨1, 5⟩ (-50) = .ok ⟨0, 0⟩ ∧ round Profile.dev .floor ⟨0, 0⟩ (-50) = .ok ⟨0, 0⟩ := by decide
+
 end Fpdec.Props.C05
